@@ -10,6 +10,7 @@ pub mod c05;
 pub mod c06;
 pub mod c07;
 pub mod c08;
+pub mod c09;
 pub mod c10;
 pub mod c11;
 pub mod c12;
@@ -34,6 +35,7 @@ pub fn dispatch(a: &ShardArgs) -> Result<(), String> {
         "c06" => c06::run(a),
         "c07" => c07::run(a),
         "c08" => c08::run(a),
+        "c09" => c09::run(a),
         "c10" => c10::run(a),
         "c11" => c11::run(a),
         "c12" => c12::run(a),
